@@ -490,7 +490,7 @@ func runC17(a *A) {
 	a.Rule("whomay/consumers", 1, func() {
 		W := a.Named("window", "GlobalWindow")
 		trig := a.FieldOf(W, "triggerChan")
-		st := a.Method("window", "GlobalWindow", "Start")
+		st := a.startGoroutine(a.Method("window", "GlobalWindow", "Start"))
 		for _, fn := range a.ModFuncs {
 			allInstrs(fn, func(in ssa.Instruction) {
 				sel, ok := in.(*ssa.Select)
@@ -498,14 +498,14 @@ func runC17(a *A) {
 					for _, s := range sel.States {
 						if s.Dir == types.RecvOnly {
 							if t := TermOf(s.Chan, nil); t.Kind == "field" && t.Field == trig {
-								a.Check(fn.Parent() == st, "recv(triggerChan)@"+fname(fn), in.Pos(), "the Start goroutine is the only receiver (rows are applied one at a time, in arrival order)", fname(fn)+" also receives from GlobalWindow.triggerChan")
+								a.Check(fn == st, "recv(triggerChan)@"+fname(fn), in.Pos(), "the Start goroutine is the only receiver (rows are applied one at a time, in arrival order)", fname(fn)+" also receives from GlobalWindow.triggerChan")
 							}
 						}
 					}
 				}
 				if u, ok := in.(*ssa.UnOp); ok && u.Op == token.ARROW {
 					if t := TermOf(u.X, nil); t.Kind == "field" && t.Field == trig {
-						a.Check(fn.Parent() == st, "recv(triggerChan)@"+fname(fn), in.Pos(), "the Start goroutine is the only receiver", fname(fn)+" also receives from GlobalWindow.triggerChan")
+						a.Check(fn == st, "recv(triggerChan)@"+fname(fn), in.Pos(), "the Start goroutine is the only receiver", fname(fn)+" also receives from GlobalWindow.triggerChan")
 					}
 				}
 			})
